@@ -432,11 +432,14 @@ impl MdkSqliteStorage {
         // Note: Files created after this point will have default permissions, but are
         // still protected by directory permissions and SQLCipher encryption (see above).
         let parent = db_path.parent();
-        let stem = db_path.file_name().and_then(|n| n.to_str());
+        let stem = db_path.file_name();
 
         if let (Some(parent), Some(stem)) = (parent, stem) {
             for suffix in &["-wal", "-shm", "-journal"] {
-                let sidecar = parent.join(format!("{}{}", stem, suffix));
+                // Built from the OS string: a file name need not be valid UTF-8.
+                let mut sidecar_name = stem.to_os_string();
+                sidecar_name.push(suffix);
+                let sidecar = parent.join(sidecar_name);
                 if sidecar.exists() {
                     set_secure_file_permissions(&sidecar)?;
                 }
